@@ -65,14 +65,15 @@ func pBool(c string) bool  { _, err := strconv.ParseBool(c); return err == nil }
 func fInt(c string) bool   { _, err := fastfloat.ParseInt64(c); return err == nil }
 func fFloat(c string) bool { _, err := fastfloat.Parse(c); return err == nil }
 
-// verifClassify adds the kind the inference sees in cell c (cells are too short to be times).
+// add records the kind the (repaired, c3d5377) inference sees in cell c: it classifies with the
+// parsers of the execution, fastfloat.ParseInt64 / fastfloat.Parse (cells are too short to be times).
 func (k *verifKinds) add(c string) {
 	switch {
 	case c == "":
 		k.null = true
-	case pInt(c):
+	case fInt(c):
 		k.integer = true
-	case pFloat(c):
+	case fFloat(c):
 		k.float = true
 	case pBool(c):
 		k.boolean = true
@@ -136,16 +137,14 @@ func VerifC24CSV() {
 	zzverif.Assert(len(schema.Fields) == 2 && schema.Fields[0].Name == "k" && schema.Fields[1].Name == "v", "schema-has-k-v")
 	zzverif.Reach("inferred")
 
+	// Before c3d5377 the inference classified with strconv and the execution parsed with fastfloat:
+	// a previewed cell like "+1", ".5", "5." made an Int / Float column receive Strings
+	// (C24-csv-number-syntax, repaired; verifNumberSyntaxGap describes those cells). No marker is
+	// left for it: on the repaired tree nothing may fail there.
 	var p verifKinds
-	gap := false
 	for i := 0; i < pre; i++ {
 		p.add(cells[i])
-		gap = gap || verifNumberSyntaxGap(cells[i])
 	}
-	if post == 1 {
-		gap = gap || (verifNumberSyntaxGap(cells[pre]) && (p.integer || p.float))
-	}
-	zzverif.Known("C24-csv-number-syntax", gap && !p.str)
 	zzverif.Known("C24-csv-beyond-preview-silent", post == 1 && !verifRepresentable(p, cells[pre]))
 
 	if rerr != nil {
